@@ -7,7 +7,8 @@ interleaving of
     L  run the next ready loop handle (asyncio's FIFO order is kept)
     R  the server resolves the framework's pending receive() with the next delivery
        (messages m1..mk, then a disconnect if the client script has one)
-    G* the application takes its next step (each application step waits on a gate
+    G* the application takes its next step (each application step waits on a gate; shape E: one
+       gate, then back-to-back receives with no suspension in between while messages are buffered;
        only the environment opens: otherwise an eager consumer never lets the queue fill)
     S  the server completes a suspended send()
     X  (shape C) an external cancel() hits the pending application receive
@@ -206,6 +207,16 @@ def make_resource(holder, cfg):
             await ws.accept()
             await receiver(ws, r)
 
+    class E:
+        # a burst consumer: waits once, then drains with back-to-back receives -- when messages are buffered there is
+        # NO suspension (hence no pump step) between two receives
+        async def on_websocket(self, req, ws):
+            await ws.accept()
+            await env.gate('a')
+            for _ in range(r):
+                if not await recv_once(ws):
+                    break
+
     class B:
         async def on_websocket(self, req, ws):
             await ws.accept()
@@ -252,7 +263,7 @@ def make_resource(holder, cfg):
             env.log.append(('closed',))
             await t
 
-    return {'A': A, 'B': B, 'C': C, 'D': D}[shape]()
+    return {'A': A, 'B': B, 'C': C, 'D': D, 'E': E}[shape]()
 
 
 class Violation(Exception):
@@ -429,6 +440,13 @@ def gen_cfgs(tier):
                 rs = range(0, k + 2) if disc else range(0, k + 1)
                 for r in rs:
                     cfgs.append({'shape': 'A', 'k': k, 'cap': cap, 'disc': disc, 'r': r, 's': 0, 'send_suspends': False})
+    for k in range(1, kmax + 1):
+        for cap in (0, 1, 2, 3, 4):
+            if cap > k + 1:
+                continue
+            for disc in (True, False):
+                for r in (range(2, k + 2) if disc else range(2, k + 1)):
+                    cfgs.append({'shape': 'E', 'k': k, 'cap': cap, 'disc': disc, 'r': r, 's': 0, 'send_suspends': False})
     kb = 2 if tier == 'quick' else 3
     for k in range(0, kb + 1):
         for cap in (0, 1, 2):
@@ -469,7 +487,7 @@ def run_batch(batch, rep):
 
 def check(rep):
     cfgs = gen_cfgs(rep.tier)
-    rep.bounds = {'deliveries_k<=': '3 (A), 2 (B, C, D)' if rep.tier == 'quick' else '5 (A), 3 (B; with suspending sends: one send, or two sends for k<=1), 4 (C, D)', 'capacities': [0, 1, 2, 3, 4], 'shapes': 'A single receiver; '
+    rep.bounds = {'deliveries_k<=': '3 (A), 2 (B, C, D)' if rep.tier == 'quick' else '5 (A), 3 (B; with suspending sends: one send, or two sends for k<=1), 4 (C, D)', 'capacities': [0, 1, 2, 3, 4], 'shapes': 'E burst receiver (one wait, then back-to-back receives); A single receiver; '
                   'B receiver+sender task (send may suspend); C pending receive cancelled externally; D close while a receive is pending',
                   'configs': len(cfgs), 'schedules': 'ALL interleavings of loop steps and environment events (no deviation bound)'}
     rep.rule = ('stateless DFS over all choice sequences; one choice point wherever more than one of {next loop handle, server '
